@@ -156,13 +156,11 @@ def _handle_ConnectionUp (event):
 def _handle_LinkEvent (event):
   # When links change, update spanning tree
 
-  (dp1,p1),(dp2,p2) = event.link.end
-  if _prev[dp1][p1] is False:
-    if _prev[dp2][p2] is False:
-      # We're disabling this link; who cares if it's up or down?
-      #log.debug("Ignoring link status for %s", event.link)
-      return
-
+  # Note that we can't ignore a link just because flooding is currently
+  # disabled on both of its ports: when it goes away its ports may become
+  # edge ports (which must flood), and when its reverse direction shows up
+  # it may be needed for the tree.  _update_tree() only sends port mods for
+  # ports which actually change, so always recomputing is cheap.
   _update_tree()
 
 
